@@ -1,4 +1,5 @@
 import json
+import os
 import tarfile
 import shutil
 import numpy as np
@@ -142,8 +143,16 @@ class DataDir(object):
         return self._delete_files(filenames=filenames)
 
     def _check_writeprotected(self, filename, accessmode):
-        if accessmode != 'r' and filename in self._protectedpaths:
-            raise OSError(f'Cannot modify protected file "{filename}"')
+        if accessmode == 'r':
+            return
+        # compare locations, not spellings: Path('x'), './x', 'sub/../x' and
+        # anything inside a protected directory are protected too
+        root = os.path.realpath(self._path)
+        target = os.path.realpath(os.path.join(root, filename))
+        for protectedpath in self._protectedpaths:
+            protected = os.path.realpath(os.path.join(root, protectedpath))
+            if target == protected or target.startswith(protected + os.sep):
+                raise OSError(f'Cannot modify protected file "{filename}"')
 
     # FIXME overwrite parameter?
     @contextmanager
